@@ -816,7 +816,7 @@ impl super::DiskFS for Disk {
                         let bytes = match entry.file_type & 0x7f {
                             1 | 2 => u16::from_le_bytes([buf[0],buf[1]]),
                             4 => u16::from_le_bytes([buf[2],buf[3]]),
-                            _ => sectors*256
+                            _ => sectors.saturating_mul(256)
                         };
                         tree["files"][&name]["meta"] = json::JsonValue::new_object();
                         let meta = &mut tree["files"][&name]["meta"];
